@@ -160,9 +160,7 @@ Fixpoint loop_dids (ndid : nat) (pc : pcfg) (recnum : Z) (d : bytes) (cur : nat)
     else
       let did := be_dec (firstn ds rem) in
       sh <- fetch_codec pc did ;;
-      if sh <? 0 then fail ERuntime
-      else
-        let size := Z.to_nat sh in
+      let size := if sh <? 0 then (List.length rem - ds)%nat else Z.to_nat sh in
         if Nat.ltb (List.length rem - ds) size then fail EInvalid
         else loop_dids k pc recnum d (cur + ds + size) (acc ++ [SnapDid recnum did (firstn size (skipn ds rem))])
   end.
@@ -386,11 +384,7 @@ Definition rdtci_interpret (cfg : config) (sub : Z) (a : dtcargs) (r : resp) : M
     ret (enc_dtcdata x)
   end.
 
-(* sizes that only the decoder needs are validated before anything is sent *)
-Definition rdtci_precheck (cfg : config) (sub : Z) (a : dtcargs) : M unit :=
-  if in_group "response_subfn_mask_record_plus_extdata" sub || in_group "response_subfn_record_number_plus_dtc_mask_plus_extdata" sub
-  then (_ <- ext_size_of cfg a ;; ret tt) else ret tt.
-
+(* note: the extended-data size, needed only by the decoder, is validated after the request was sent (the
+   existing test suite pins this order); see known_findings.json for C07 *)
 Definition read_dtc_information (cfg : config) (st : cstate) (sub : Z) (a : dtcargs) (now : Z) (s : sched) : fres :=
-  single_request cfg st (rq <- rdtci_make cfg sub a ;; _ <- rdtci_precheck cfg sub a ;; ret rq)
-                 (rdtci_interpret cfg sub a) no_post now s.
+  single_request cfg st (rdtci_make cfg sub a) (rdtci_interpret cfg sub a) no_post now s.
